@@ -366,6 +366,233 @@ class GeneToTranscript(Contract):
 
 
 # ----------------------------------------------------------------------------
+# ORF coordinates and transcript sequence
+# ----------------------------------------------------------------------------
+from pyvc.pstr import PStr, cmpl
+
+
+class FeatList(FnView):
+    """a sorted list of features (CDS / UTR segments) given by arrays of starts / ends (+ frames)"""
+    def __init__(self, I, name, strand, frames=False):
+        e = I.e
+        self.n = e.int(f'{name}_n')
+        self.s, self.e = e.array(f'{name}_s'), e.array(f'{name}_e')
+        self.f = e.array(f'{name}_frame') if frames else None
+        self.strand, self.name = strand, name
+        self.cache = {}
+        super().__init__(self.n, self.at, tag=name)
+
+    def at(self, i):
+        iz = i if is_z3(i) else z3.IntVal(i)
+        key = z3.simplify(iz).sexpr()
+        if key not in self.cache:
+            loc = SymObj('FeatureLocation', start=self.s[iz], end=self.e[iz], strand=self.strand, seqname='chr1',
+                         reading_frame_index=None, start_offset=0, end_offset=0, ref=None, ref_db=None)
+            self.cache[key] = SymObj('GTFSeqFeature', location=loc, chrom='chr1', attributes={}, type=self.name,
+                                     id='<unknown id>', qualifiers={}, source='GENCODE',
+                                     frame=self.f[iz] if self.f is not None else None)
+        return self.cache[key]
+
+    def sym_truth(self, I):
+        return self.n != 0
+
+    def wf(self, h):
+        """non-empty segments, sorted and disjoint, each inside one exon of the transcript"""
+        j, j2, q = z3.Ints(f'{self.name}_j {self.name}_j2 {self.name}_q')
+        inr = lambda x: z3.And(0 <= x, x < self.n)
+        ax = [self.n >= 0,
+              z3.ForAll([j], z3.Implies(inr(j), self.s[j] < self.e[j])),
+              z3.ForAll([j, j2], z3.Implies(z3.And(inr(j), inr(j2), j < j2), self.e[j] <= self.s[j2])),
+              z3.ForAll([j], z3.Implies(inr(j), z3.Exists([q], z3.And(0 <= q, q < h.n, h.s[q] <= self.s[j], self.e[j] <= h.e[q]))))]
+        if self.f is not None:
+            ax.append(z3.ForAll([j], z3.Implies(inr(j), z3.And(0 <= self.f[j], self.f[j] <= 2))))
+        return ax
+
+
+def tx_index(h, g, r):
+    """r is the transcript index of the exonic genomic position g (G2T contract)"""
+    return g2t_spec(h, h.cum, g, r)
+
+
+@register
+class CdsStartIndex(Contract):
+    """ORF start = transcript index of the first CDS base in transcript order, plus the CDS frame"""
+    path, qualname, props = TAM, 'TranscriptAnnotationModel.get_cds_start_index', ('C11',)
+    declared_raises = ['ValueError']
+    models = (install_exon_identity,)
+    uses_lemmas = ('cum_monotone',)
+    assumptions = ('assumed: CDS segments are sorted, disjoint and each lies inside an exon; frames are 0, 1 or 2',)
+
+    def setup(self, I):
+        h = mk_tx_tagged(I)
+        cds = FeatList(I, 'cds', h.strand, frames=True)
+        h.obj.fields['cds'] = cds
+        for a in h.axioms + cds.wf(h) + [cds.n >= 1]:
+            I.e.assume(a)
+        self._cur = types.SimpleNamespace(args=[h.obj], h=h, cds=cds)
+        return self._cur
+
+    def inv0(self, I, env, k):
+        st = self._cur
+        h, c = st.h, st.cds.s[0]
+        j = z3.Int('ij')
+        return [('cds_start=cum(k)', env['cds_start'] == h.cum(k)),
+                ('first-cds-base-not-in-earlier-exons', z3.ForAll([j], z3.Implies(z3.And(0 <= j, j < k), h.e[j] <= c)))]
+
+    def inv1(self, I, env, k):
+        st = self._cur
+        h, c = st.h, st.cds.e[st.cds.n - 1]
+        j = z3.Int('ij')
+        return [('cds_start=suffix', env['cds_start'] == h.cum(h.n) - h.cum(h.n - k)),
+                ('last-cds-end-not-in-later-exons', z3.ForAll([j], z3.Implies(z3.And(h.n - k <= j, j < h.n), h.s[j] >= c)))]
+
+    @property
+    def loops(self):
+        return {0: LoopSpec(inv=self.inv0), 1: LoopSpec(inv=self.inv1)}
+
+    def post_return(self, I, st, ret):
+        h, cds = st.h, st.cds
+        r = z3.Int('r_first')
+        first = z3.If(h.strand == 1, cds.s[0], cds.e[cds.n - 1] - 1)
+        frame = z3.If(h.strand == 1, cds.f[0], cds.f[cds.n - 1])
+        import os
+        if os.environ.get('DBG'):
+            print('RET', z3.simplify(ret), '\n  pc', [str(x)[:200] for x in I.e.pc[-6:]])
+        I.e.prove('C11/cds-start/=index-of-first-cds-base-plus-frame',
+                  z3.And(strand_pm(h.strand), z3.Exists([r], z3.And(tx_index(h, first, r), ret == r + frame))))
+
+    def post_raise(self, I, st, exc):
+        I.e.prove('C11/cds-start/raise/only-unstranded', z3.Not(strand_pm(st.h.strand)))
+
+
+@register
+class CdsEndIndex(Contract):
+    """ORF end: the largest index <= E congruent to the ORF start modulo 3, where E is the transcript index of the 3'UTR base
+    that comes first in transcript order (or the transcript length when no 3'UTR is annotated)"""
+    path, qualname, props = TAM, 'TranscriptAnnotationModel.get_cds_end_index', ('C11',)
+    declared_raises = ['ValueError']
+    uses_lemmas = ('cum_monotone',)
+
+    def setup(self, I):
+        e = I.e
+        h = mk_tx_tagged(I)
+        utr = FeatList(I, 'utr3', h.strand)
+        h.obj.fields['three_utr'] = utr
+        start, L = e.int('orf_start'), e.int('seq_len')
+        for a in h.axioms + utr.wf(h) + [strand_pm(h.strand), 0 <= start, start <= L, L == h.cum(h.n)]:
+            e.assume(a)
+        seq = PStr.sym(e, 'txseq', L)
+        self._cur = types.SimpleNamespace(args=[h.obj, seq, start], h=h, utr=utr, start=start, L=L)
+        return self._cur
+
+    def post_return(self, I, st, ret):
+        h, utr = st.h, st.utr
+        r = z3.Int('r_utr')
+        u = z3.If(h.strand == 1, utr.s[0], utr.e[utr.n - 1] - 1)      # first 3'UTR base in transcript order
+        bound_is = lambda E: z3.And((ret - st.start) % 3 == 0, ret <= E, E - ret < 3)
+        I.e.prove('C11/cds-end/in-frame-and-at-most-the-3utr-start',
+                  z3.If(utr.n == 0, bound_is(st.L), z3.Exists([r], z3.And(tx_index(h, u, r), bound_is(r)))))
+
+    def post_raise(self, I, st, exc):
+        I.e.prove('C11/cds-end/raise/never-for-utr-inside-exons', False)
+
+
+@register
+class Utr3StartIsFirst(Lemma):
+    """Over the G2T contract: on the plus strand the transcript index grows with the genomic position of exonic bases, on the minus
+    strand it falls; hence three_utr[0].start (+) / three_utr[-1].end - 1 (-) has the smallest index of all 3'UTR bases."""
+    qualname, props = 'utr3_first_base_has_smallest_index', ('C11',)
+
+    def obligations(self, e):
+        h = _H('U')
+        cum, ax = mk_cum(e, h)
+        h.cum = cum
+        hy = wf_exons(h) + ax + cum_monotone_stmt(h, cum) + [strand_pm(h.strand)]
+        g1, g2, r1, r2 = z3.Ints('g1 g2 r1 r2')
+        return [('G2T-monotone-in-transcript-direction',
+                 hy + [g2t_spec(h, cum, g1, r1), g2t_spec(h, cum, g2, r2), z3.If(h.strand == 1, g1 < g2, g1 > g2)], r1 < r2)]
+
+
+class SecList(FeatList):
+    pass
+
+
+@register
+class TranscriptSequence(Contract):
+    """tx[i] = strand-corrected chromosome base at T2G(i); ORF from get_cds_start/end_index; Sec sites mapped by G2T"""
+    path, qualname, props = TAM, 'TranscriptAnnotationModel.get_transcript_sequence', ('C11',)
+    declared_raises = ['ValueError']
+    uses_lemmas = ('cum_monotone',)
+    assumptions = ('assumed: Bio.Seq slicing / + / reverse_complement = str semantics with the complement involution; '
+                   'DNASeqRecordWithCoordinates(...) stores its arguments; exons lie on the chromosome',
+                   'selenocysteine list taken empty here (its mapping uses get_transcript_index, proved separately)')
+
+    def setup(self, I):
+        e = I.e
+        h = mk_tx_tagged(I)
+        st = types.SimpleNamespace(h=h)
+        st.Lc = e.int('chrom_len')
+        st.C = PStr.sym(e, 'chrom', st.Lc)
+        j = z3.Int('j_ch')
+        for a in h.axioms + [strand_pm(h.strand), h.e[h.n - 1] <= st.Lc]:
+            e.assume(a)
+        tr = h.obj.fields['transcript']
+        tr.fields['attributes'].update(transcript_id='ENST_T', gene_id='ENSG_G')
+        chrom = SymObj('DNASeqRecord', seq=st.C, id='chr1', name='chr1', description='chr1')
+        st.args = [h.obj, chrom]
+        self._cur = st
+        return st
+
+    @property
+    def models(self):
+        from .c14 import install_seq_models
+        return (install_exon_identity, install_seq_models)
+
+    def havoc(self, I, env, k):
+        st = self._cur
+        if I.e.branch(k == 0, 'first exon'):
+            env['seq'] = None
+        else:
+            st.acc = PStr.sym(I.e, 'seq_acc')
+            env['seq'] = st.acc
+
+    def inv(self, I, env, k):
+        st = self._cur
+        h = st.h
+        seq = env['seq']
+        if seq is None:
+            return [('seq-is-None-only-before-the-first-exon', k == 0)]
+        j, t = z3.Ints('j_inv t_inv')
+        return [('k>0', k >= 1), ('length=cum(k)', seq.length() == h.cum(k)),
+                ('content=exons-so-far', z3.ForAll([j, t], z3.Implies(z3.And(0 <= j, j < k, h.cum(j) <= t, t < h.cum(j + 1)),
+                                                                     seq.get(t) == st.C.get(h.s[j] + t - h.cum(j))),
+                                                  patterns=[z3.MultiPattern(seq.get(t), h.cum(j))] if hasattr(seq, 'arr') else []))]
+
+    @property
+    def loops(self):
+        # loop 0 is the list comprehension-free `for location in [...]` loop over exon locations
+        return {0: LoopSpec(inv=self.inv, havoc=self.havoc)}
+
+    def post_return(self, I, st, ret):
+        e = I.e
+        h = st.h
+        seq = ret.fields['seq']
+        L = h.cum(h.n)
+        e.prove('C11/tx-seq/length=sum-of-exon-lengths', seq.length() == L)
+        j, i = z3.Ints('j_p i_p')
+        # transcript position i lies in exon j:  plus: cum(j) <= i < cum(j+1);  minus: measured from the 3' genomic end
+        plus = z3.Implies(z3.And(0 <= j, j < h.n, h.cum(j) <= i, i < h.cum(j + 1)),
+                          seq.get(i) == st.C.get(h.s[j] + i - h.cum(j)))
+        minus = z3.Implies(z3.And(0 <= j, j < h.n, L - h.cum(j + 1) <= i, i < L - h.cum(j)),
+                           seq.get(i) == cmpl(st.C.get(h.e[j] - 1 - (i - (L - h.cum(j + 1))))))
+        e.prove('C11/tx-seq/base-i=strand-corrected-chromosome-base-at-T2G(i)', z3.If(h.strand == 1, plus, minus))
+        e.prove('C11/tx-seq/no-cds-no-orf', ret.fields['orf'] is None)
+
+    def post_raise(self, I, st, exc):
+        I.e.prove('C11/tx-seq/raise/never-with-exons', False)
+
+
+# ----------------------------------------------------------------------------
 # Native side (replay + CPython cross-check of the spec functions)
 # ----------------------------------------------------------------------------
 from pyvc.native import NativeCheck
